@@ -93,12 +93,14 @@ DTYPE_NAMES = {'bool', 'int8', 'int16', 'int32', 'int64', 'uint8', 'uint16', 'ui
 
 def dtype_w(dt):
     dt = np.dtype(dt)
+    if not dt.isnative:
+        raise ValueError('byte-swapped dtype outside the model: {}'.format(dt))
     if dt.name in DTYPE_NAMES:
         return dt.name
     if dt.kind == 'S':
-        return 'bytes'
+        return 'bytes{}'.format(dt.itemsize)
     if dt.kind == 'U':
-        return 'str'
+        return 'str{}'.format(dt.itemsize // 4)
     raise ValueError('dtype outside the model: {}'.format(dt))
 
 
@@ -119,12 +121,14 @@ def describe_weighting(w, reg):
         arr = w.array
         digest = hashlib.sha1(arr.tobytes()).hexdigest()[:16]
         return 'wa({},{},{},{})'.format(f, reg.tok(arr), digest, flw(w.exponent))
-    if kind == 'CustomInner':
-        return 'wi({},{})'.format(f, reg.tok(w.inner))
-    if kind == 'CustomNorm':
-        return 'wn({},{})'.format(f, reg.tok(w.norm))
-    if kind == 'CustomDist':
-        return 'wd({},{})'.format(f, reg.tok(w.dist))
+    if kind in ('CustomInner', 'CustomNorm', 'CustomDist'):
+        import types
+        fn = {'CustomInner': 'inner', 'CustomNorm': 'norm', 'CustomDist': 'dist'}[kind]
+        call = getattr(w, fn)
+        if not isinstance(call, types.FunctionType):
+            raise ValueError('callable that is not a plain function (compared with its own '
+                             '__eq__, not by identity): oracle only')
+        return 'w{}({},{})'.format(fn[0], f, reg.tok(call))
     raise ValueError('weighting class outside the model: ' + name)
 
 
@@ -199,6 +203,11 @@ def describe(o, reg):
     import odl
     from odl.space.weighting import Weighting
     t = type(o)
+    if t in (odl.CartesianProduct, odl.SetUnion, odl.SetIntersection):
+        for m in o.sets:
+            if isinstance(m, (odl.FiniteSet, odl.CartesianProduct, odl.SetUnion,
+                              odl.SetIntersection)):
+                raise ValueError('composite with FiniteSet / composite members: oracle only')
     if t is odl.CartesianProduct:
         return 'cart({})'.format(L(describe_leaf(m, reg) for m in o.sets))
     if t is odl.SetUnion:
@@ -243,6 +252,16 @@ def _pf_norm(x):
     return float(np.sqrt(sum(float(np.vdot(a.data, a.data).real) for a in x)))
 
 
+class _Helper(object):
+    def norm(self, x):
+        return float(np.linalg.norm(x.data))
+
+
+_HELPER = _Helper()
+import functools  # noqa
+_PARTIAL_NORM = functools.partial(lambda c, x: c * float(np.linalg.norm(x.data)), 2.0)
+M3 = np.diag([1.0, 2.0, 3.0])
+M3_COPY = M3.copy()
 W3 = np.array([1.0, 2.0, 3.0])
 W3_COPY = W3.copy()                     # equal content, different identity
 W3_OTHER = np.array([1.0, 2.0, 4.0])
@@ -263,6 +282,7 @@ def build_zoo(ctx):
     from odl.space.pspace import (ProductSpaceConstWeighting, ProductSpaceArrayWeighting,
                                   ProductSpaceCustomInner, ProductSpaceCustomNorm,
                                   ProductSpaceCustomDist)
+    from odl.space.weighting import MatrixWeighting, ConstWeighting, ArrayWeighting
     rng = ctx.rng
     R = []
 
@@ -282,6 +302,10 @@ def build_zoo(ctx):
     for els in [(1, 2, 3), (3, 2, 1), (1, 2), (1, 2, 3, 3), ('a', 1), (1, 'a'), ('a',), ('b',),
                 (7,), ()]:
         add('FiniteSet{}'.format(els), lambda els=els: odl.FiniteSet(*els), dup=(els == (1, 2, 3)))
+    # atoms outside the model (oracle only): floats equal to ints, unhashable atoms, arrays
+    add('FiniteSet(1.0, 2)', lambda: odl.FiniteSet(1.0, 2), dup=False)
+    add('FiniteSet([1, 2])', lambda: odl.FiniteSet([1, 2]), dup=True)
+    add('FiniteSet(array([1, 2]))', lambda: odl.FiniteSet(np.array([1, 2])), dup=True)
     # --- interval products
     ips = [([0], [1]), ([0], [2]), ([-0.0], [1]), ([0], [0]), ([-1], [1]),
            ([float('-inf')], [float('inf')]), ([0], [float('inf')]),
@@ -373,6 +397,13 @@ def build_zoo(ctx):
         ('psI(npf)', lambda: ProductSpaceCustomInner(_f_inner), False),
         ('psN(f)', lambda: ProductSpaceCustomNorm(_pf_norm), False),
         ('psD(f)', lambda: ProductSpaceCustomDist(_f_dist), False),
+        # classes without a model (oracle only): MatrixWeighting, directly instantiated bases
+        ('Matrix(M3)', lambda: MatrixWeighting(M3, impl='numpy'), True),
+        ('Matrix(M3copy)', lambda: MatrixWeighting(M3_COPY, impl='numpy'), False),
+        ('Matrix(M3,e1)', lambda: MatrixWeighting(M3, impl='numpy', exponent=1.0), False),
+        ('baseC(2)', lambda: ConstWeighting(2.0, impl='numpy'), True),
+        ('baseA(W3)', lambda: ArrayWeighting(W3, impl='numpy'), True),
+        ('npN(bound)', lambda: NumpyTensorSpaceCustomNorm(_HELPER.norm), True),
     ]
     for nm, th, dup in wts:
         add('Weighting:' + nm, th, dup=dup)
@@ -397,6 +428,16 @@ def build_zoo(ctx):
         ('ts(3,uint8)', lambda: odl.tensor_space(3, dtype='uint8'), False),
         ('ts(3,bool)', lambda: odl.tensor_space(3, dtype=bool), True),
         ('ts(3,U2)', lambda: odl.tensor_space(3, dtype='U2'), False),
+        ('ts(3,U5)', lambda: odl.tensor_space(3, dtype='U5'), True),
+        ('ts(3,U7)', lambda: odl.tensor_space(3, dtype='U7'), False),
+        ('ts(3,S5)', lambda: odl.tensor_space(3, dtype='S5'), False),
+        ('ts(3,bool,e=1)', lambda: odl.tensor_space(3, dtype=bool, exponent=1.0), False),
+        ('ts((2,3),bool)', lambda: odl.tensor_space((2, 3), dtype=bool), False),
+        ('rn(3,>f8)', lambda: odl.rn(3, dtype='>f8'), True),        # oracle only
+        ('rn(3,w=Matrix)', lambda: odl.rn(3, weighting=MatrixWeighting(M3, impl='numpy')),
+         True),                                                      # oracle only
+        ('rn(3,norm=bound)', lambda: odl.rn(3, norm=_HELPER.norm), True),   # oracle only
+        ('rn(3,norm=partial)', lambda: odl.rn(3, norm=_PARTIAL_NORM), True),  # oracle only
         ('rn(3,e=1)', lambda: odl.rn(3, exponent=1), True),
         ('rn(3,e=inf)', lambda: odl.rn(3, exponent=float('inf')), False),
         ('rn(3,e=1.5)', lambda: odl.rn(3, exponent=1.5), False),
@@ -535,13 +576,20 @@ def build_zoo(ctx):
         'r3': r3, 'r3w': odl.rn(3, weighting=2.0), 'r3W': odl.rn(3, weighting=W3),
         'r3Wc': odl.rn(3, weighting=W3_COPY), 'ud': odl.uniform_discr(0, 1, 3),
         'P': odl.ProductSpace(r2, r3), 'g': odl.RectGrid([0.0, 1.0]),
-        'gz': odl.RectGrid([-0.0, 1.0]),
+        'gz': odl.RectGrid([-0.0, 1.0]), 'U': odl.UniversalSet(),
+        # members outside the model (oracle only): finite sets and composites
+        'F12': odl.FiniteSet(1, 2), 'F21': odl.FiniteSet(2, 1), 'F13': odl.FiniteSet(1, 3),
+        'CRC': odl.CartesianProduct(RN, CN), 'URC': odl.SetUnion(RN, CN),
+        'UCR': odl.SetUnion(CN, RN), 'IRZ': odl.SetIntersection(RN, ZN),
     }
     combos = [('R',), ('R', 'C'), ('C', 'R'), ('R', 'C', 'Z'), ('Z', 'R', 'C'), ('R', 'R'),
               ('R', 'C', 'R'), (), ('r3',), ('r3', 'r3w'), ('r3w', 'r3'), ('r3W', 'r3Wc'),
               ('r3W',), ('r3Wc',), ('ip1',), ('ip1b',), ('ip2',), ('ip3',), ('ip1', 'R'),
               ('ip2', 'R'), ('R', 'ip2'), ('R', 'ip3'), ('ip2', 'ip3'), ('ud', 'P'), ('P', 'ud'),
-              ('S2', 'E'), ('g',), ('gz',), ('ip1', 'ip2'), ('R', 'ip1')]
+              ('S2', 'E'), ('g',), ('gz',), ('ip1', 'ip2'), ('R', 'ip1'), ('U', 'R'), ('R', 'U'),
+              ('F12',), ('F21',), ('F13',), ('F12', 'R'), ('R', 'F21'), ('R', 'F13'),
+              ('CRC',), ('CRC', 'R'), ('R', 'CRC'), ('URC',), ('UCR',), ('URC', 'Z'),
+              ('Z', 'UCR'), ('IRZ', 'URC'), ('UCR', 'IRZ')]
     for kind, cls in [('CartesianProduct', odl.CartesianProduct), ('SetUnion', odl.SetUnion),
                       ('SetIntersection', odl.SetIntersection)]:
         for cb in combos:
@@ -549,7 +597,8 @@ def build_zoo(ctx):
                 lambda cls=cls, cb=cb: cls(*[members[k] for k in cb]),
                 dup=(cb in (('R', 'C'), ('r3W',))))
     # random extra composites
-    keys = sorted(members)
+    keys = sorted(k for k in members if k not in ('F12', 'F21', 'F13', 'CRC', 'URC', 'UCR',
+                                                  'IRZ'))
     for _ in range(4 if ctx.quick else 30):
         cb = tuple(rng.choice(keys) for _ in range(rng.randint(1, 3)))
         cls_name, cls = rng.choice([('CartesianProduct', odl.CartesianProduct),
@@ -774,6 +823,23 @@ def cause_of(a, b, hashing=False):
     return '+'.join(causes) if causes else 'none'
 
 
+def _odd_atoms(o):
+    """'' / ' atoms=array' / ' atoms=unhashable' for FiniteSets (also inside composites)"""
+    import odl
+    if isinstance(o, odl.FiniteSet):
+        if any(isinstance(e, np.ndarray) for e in o.elements):
+            return ' atoms=array'
+        for e in o.elements:
+            try:
+                hash(e)
+            except TypeError:
+                return ' atoms=unhashable'
+        return ''
+    if isinstance(o, (odl.CartesianProduct, odl.SetUnion, odl.SetIntersection)):
+        return ''.join(sorted({_odd_atoms(m) for m in o.sets}))
+    return ''
+
+
 def cls(o):
     return type(o).__name__
 
@@ -828,17 +894,21 @@ def oracle_pairs(ctx, zoo, E, exc, H):
         return d
     for i in range(n):
         a = zoo[i][2]
-        if H[i][0] != 'ok':
-            viol(ctx, 'hash-raises {}'.format(cls(a)),
+        if H[i][0] != 'ok' and _odd_atoms(a) and H[i][1].startswith('TypeError'):
+            pass   # a container of unhashable atoms is unhashable (as tuples of lists are)
+        elif H[i][0] != 'ok':
+            viol(ctx, 'hash-raises {}{}'.format(cls(a), _odd_atoms(a)),
                           'hash({}) raised {}'.format(names[i], H[i][1]), rep(i))
         if E[i, i] != 1:
-            viol(ctx, 'eq-not-reflexive {} cause={}'.format(cls(a), cause_of(a, a)),
+            viol(ctx, 'eq-not-reflexive {} cause={}{}'.format(cls(a), cause_of(a, a),
+                                                            _odd_atoms(a)),
                           '{} == itself gives {}'.format(names[i], _outcome(E, exc, i, i)), rep(i))
     for i in range(n):
         for j in range(n):
             a, b = zoo[i][2], zoo[j][2]
             if E[i, j] == 2:
-                viol(ctx, 'eq-raises {} vs {} cause={}'.format(cls(a), cls(b), cause_of(a, b)),
+                viol(ctx, 'eq-raises {} vs {} cause={}{}'.format(
+                    cls(a), cls(b), cause_of(a, b), _odd_atoms(a) or _odd_atoms(b)),
                               '({}) == ({}) raised {}'.format(names[i], names[j], exc[(i, j)]),
                               rep(i, j))
             elif E[i, j] == 3:
@@ -858,7 +928,7 @@ def oracle_pairs(ctx, zoo, E, exc, H):
                     rep(i, j))
             # equal-by-construction duplicates
             if i < j and names[i] == names[j] and E[i, j] != 1:
-                viol(ctx, 'duplicates-unequal {}'.format(cls(a)),
+                viol(ctx, 'duplicates-unequal {}{}'.format(cls(a), _odd_atoms(a)),
                               'two objects built by the recipe {} compare {}'.format(
                                   names[i], _outcome(E, exc, i, j)), rep(i, j))
     # transitivity over ALL triples: T = E*E has T[i,k] > 0 iff some j links them
@@ -928,7 +998,7 @@ def correspond_pairs(ctx, zoo, E, exc, H):
                                   if same_cls and i != j and len(ctx.samples) < 8 and
                                   ctx.rng.random() < 0.01 else None))
             if same_cls:
-                ctx.hit('eq/{}/{}'.format(cls(a), 'tfe'[ie] if ie < 3 else 'x'))
+                ctx.hit('eq/{}/{}'.format(cls(a), 'fte'[ie] if ie < 3 else 'x'))
             if me != ie:
                 ctx.disagree({'kind': 'pair', 'a': zoo[i][0], 'b': zoo[j][0], 'what': '=='},
                              _outcome(E, exc, i, j), 'model: ' + f['eq'][p * m + q])
@@ -1309,8 +1379,11 @@ def run_elements(ctx, spaces, elems):
             warnings.simplefilter('ignore')
             try:
                 res = t.element(inp, order='C') if forced else t.element(inp)
-                impl = canon_result(res, inp)
                 err = None
+                try:
+                    impl = canon_result(res, inp)
+                except ValueError:      # result outside the wire format: oracle only
+                    impl = 'unmodelled'
             except Exception as e:  # noqa
                 res, err = None, e
                 impl = {'ValueError': 'errValue', 'TypeError': 'errType'}.get(
@@ -1359,6 +1432,9 @@ def run_elements(ctx, spaces, elems):
                  sample=({'space': tn, 'input': kind, 'impl': impl[:100]}
                          if len(ctx.samples) < 12 and ctx.rng.random() < 0.02 else None))
         ctx.hit('element/{}/{}'.format(cls(t), impl.split('(')[0].split(';')[0]))
+        if impl == 'unmodelled':
+            ctx.notes.append('element case not modelled: {} <{}>'.format(tn, kind))
+            continue
         try:
             line = 'element S={} inp={} forced={}'.format(describe_space(t, reg),
                                                          describe_inp(inp, reg, t), int(forced))
@@ -1369,12 +1445,70 @@ def run_elements(ctx, spaces, elems):
         meta.append((rep, impl))
     outs = core.run_driver('C20', lines)
     for (rep, impl), ans in zip(meta, outs):
+        if ans == 'ok outside':
+            # values outside the range on which the model converts exactly: no model statement
+            # (the oracle above still compared the values with NumPy's own conversion)
+            ctx.hit('element/outside-model-range')
+            continue
         if ans != 'ok ' + impl:
             ctx.disagree(rep, impl[:300], ans[:300])
 
 
 # ---------------------------------------------------------------------------
 # derived spaces and indexing
+
+def np_expected_dtypes():
+    """What the dtype tables SHOULD contain, from NumPy alone (independent of odl.util):
+    name -> dict(kind flags, r2c, c2r)."""
+    from extract.dtypes import NAMES, NP
+    exp = {}
+    for n in NAMES:
+        d = np.dtype(NP.get(n, n))
+        k = d.kind
+        e = {'isNumeric': k in 'iufc', 'isInt': k in 'iu', 'isRealFloating': k == 'f',
+             'isComplexFloating': k == 'c', 'isFloating': k in 'fc',
+             'isReal': k in 'iuf', 'r2c': None, 'c2r': None}
+        if k == 'f':
+            # smallest complex dtype whose components hold d (complex64 is the smallest)
+            e['r2c'] = np.promote_types(d, np.complex64).name
+            e['c2r'] = d.name
+        if k == 'c':
+            e['c2r'] = np.finfo(d).dtype.name      # float type of the components
+        exp[n] = e
+    return exp
+
+
+def check_dtype_tables(ctx):
+    """Oracle for the tables the translator copies into the model (C20 real/complex
+    counterparts, dtype classification): compare the live odl tables with NumPy itself."""
+    import odl.util.utility as u
+    from extract.dtypes import NAMES, NP
+    exp = np_expected_dtypes()
+    preds = {'isNumeric': u.is_numeric_dtype, 'isInt': u.is_int_dtype, 'isReal': u.is_real_dtype,
+             'isRealFloating': u.is_real_floating_dtype,
+             'isComplexFloating': u.is_complex_floating_dtype, 'isFloating': u.is_floating_dtype}
+    for n in NAMES:
+        d = np.dtype(NP.get(n, n))
+        for pn, fn in preds.items():
+            ctx.case(('dtype-table', pn, n))
+            try:
+                got = bool(fn(d))
+            except Exception as e:  # noqa
+                got = 'raises ' + type(e).__name__
+            if got != exp[n][pn]:
+                viol(ctx, 'dtype-table-wrong {} dtype={}'.format(pn, n),
+                     'odl.util.{}({}) is {} but NumPy says {}'.format(fn.__name__, n, got,
+                                                                      exp[n][pn]),
+                     {'kind': 'dtype-table', 'table': pn, 'dtype': n})
+        for tn, tbl in (('r2c', u.TYPE_MAP_R2C), ('c2r', u.TYPE_MAP_C2R)):
+            ctx.case(('dtype-table', tn, n))
+            got = tbl.get(d)
+            got = None if got is None else np.dtype(got).name
+            if got != exp[n][tn]:
+                viol(ctx, 'dtype-table-wrong {} dtype={}'.format(tn, n),
+                     'TYPE_MAP_{}[{}] is {} but NumPy says {}'.format(tn.upper(), n, got,
+                                                                      exp[n][tn]),
+                     {'kind': 'dtype-table', 'table': tn, 'dtype': n})
 
 def pidx_wire(idx, n):
     if isinstance(idx, int):
@@ -1409,7 +1543,6 @@ def run_derived(ctx, spaces, elems):
     from odl.space.weighting import ArrayWeighting
     rng = ctx.rng
     lines, meta = [], []
-    T = __import__('odl.util.utility', fromlist=['x'])
     targets = ['float32', 'float64', 'float16', 'complex64', 'complex128', 'int64', 'uint8', 'bool']
     seen = set()
 
@@ -1508,15 +1641,13 @@ def run_derived(ctx, spaces, elems):
             numeric = all(d.kind in 'iufc' for d in leaf_dtypes) and leaf_dtypes
             want_dt = None
             if numeric:
-                try:
-                    want_dt = [(T.TYPE_MAP_C2R if op == 'real_space' else T.TYPE_MAP_R2C).get(
-                        d, d if (op == 'real_space' and d.kind in 'iu') else None)
-                        for d in leaf_dtypes]
-                    if op == 'complex_space':
-                        want_dt = [d if d.kind == 'c' else T.TYPE_MAP_R2C.get(d)
-                                   for d in leaf_dtypes]
-                except Exception:  # noqa
-                    want_dt = None
+                # expectation from NumPy alone (not from odl's own tables)
+                if op == 'real_space':
+                    want_dt = [np.finfo(d).dtype if d.kind == 'c' else d for d in leaf_dtypes]
+                else:
+                    want_dt = [d if d.kind == 'c' else
+                               np.promote_types(d, np.complex64) if d.kind == 'f' else None
+                               for d in leaf_dtypes]
             w = getattr(s, 'weighting', None) if not is_d else s.tspace.weighting
             castok = 1
             if isinstance(w, ArrayWeighting) and not is_p and want_dt and want_dt[0] is not None:
@@ -1524,7 +1655,9 @@ def run_derived(ctx, spaces, elems):
             if err is not None:
                 if numeric and want_dt and all(d is not None for d in want_dt) and castok \
                         and not (is_p and len(s) == 0):
-                    viol(ctx, 'derived-raises {} op={}'.format(cls(s), op),
+                    viol(ctx, 'derived-raises {} op={}{}'.format(
+                        cls(s), op, '' if all(d.isnative for d in leaf_dtypes)
+                        else ' dtype=byteswapped'),
                          '{}.{} raised {}: {}'.format(sn, op, type(err).__name__,
                                                       str(err)[:100]), rep)
             else:
@@ -1636,38 +1769,57 @@ def run_derived(ctx, spaces, elems):
             w = s.weighting if is_t else s.tspace.weighting
             for idx in idxs:
                 reg = Reg()
+                try:
+                    s_desc = describe_space(s, reg)
+                except ValueError:
+                    s_desc = None
+                reg.frozen = True     # arrays created by byaxis are "fresh" (token 0)
                 r, err, impl = outcome(
                     lambda: (s.byaxis if is_t else s.byaxis_in)[idx], reg)
                 kind = type(idx).__name__
                 rep = {'kind': 'derived', 'op': 'byaxis', 'space': sn, 'index': str(idx)}
-                ctx.case(('byaxis', cls(s), kind, impl.split(' ')[0],
-                          isinstance(w, ArrayWeighting)))
-                ctx.hit('byaxis/{}/{}'.format(cls(s), impl.split(' ')[0]))
-                if isinstance(w, ArrayWeighting):
-                    continue   # selection of an axis from a full-shape weight array: undefined
-                if s.dtype.kind not in 'iufc':
-                    continue   # byaxis passes `weighting=` on, which non-numeric spaces reject
-                if is_d and not isinstance(idx, int) and len(
-                        s.shape[idx] if isinstance(idx, slice) else idx) == 0:
-                    continue   # empty selection of a partition: no cell volume
-                if is_d and not s.is_uniform:
-                    continue   # byaxis_in uses partition.cell_volume, NaN for non-uniform grids
-                if is_d and isinstance(idx, slice) and (idx.step or 1) < 0:
-                    continue   # RectPartition.byaxis keeps the axis order for slices (C14)
+                arrw = isinstance(w, ArrayWeighting)
+                ctx.case(('byaxis', cls(s), kind, impl.split(' ')[0], arrw))
+                ctx.hit('byaxis/{}/{}{}'.format(cls(s), impl.split(' ')[0],
+                                                '/array-weighting' if arrw else ''))
+                # the model of NumpyTensorSpace.byaxis covers every weighting, also when the
+                # code raises ("raise" must then be the model's answer too)
+                wire = pidx_wire(idx, nd)
+                if is_t and impl != 'unmodelled' and wire and s_desc:
+                    flen = (len(range(*idx.indices(s.shape[0]))) if isinstance(idx, slice)
+                            and s.ndim else 0)
+                    send(rep, 'derive op=byaxis S={} idx={} flen={}'.format(s_desc, wire, flen),
+                         impl)
                 want_shape = ((s.shape[idx],) if isinstance(idx, int) else
                               tuple(s.shape[idx]) if isinstance(idx, slice) else
                               tuple(s.shape[i] for i in idx))
+                # input class of the case, in words, for the violation key
+                what = 'weighting=array' if arrw else 'weighting=other'
+                if is_d and not isinstance(idx, int) and len(want_shape) == 0:
+                    what += ' selection=empty'
+                elif is_d and not s.is_uniform:
+                    what += ' partition=nonuniform'
+                elif is_d and isinstance(idx, slice) and (idx.step or 1) < 0 and nd > 1:
+                    what += ' slice=negative-step'
                 if err is not None:
-                    viol(ctx, 'derived-raises {} op=byaxis'.format(cls(s)),
+                    viol(ctx, 'derived-raises {} op=byaxis {}'.format(cls(s), what),
                          '{}.byaxis[{}] raised {}: {}'.format(sn, idx, type(err).__name__,
                                                               str(err)[:100]), rep)
                     continue
+                if is_d and 'slice=negative-step' in what:
+                    continue   # partition.byaxis semantics for reversed slices belong to C14
                 probs = []
+                full = (want_shape == tuple(s.shape) and not isinstance(idx, int))
+                if arrw and full and not (r == s):
+                    probs.append('selecting all axes in order gives a space != the original')
+                if arrw and tuple(np.shape(r.weighting.array if is_t else
+                                           r.tspace.weighting.array)) != want_shape:
+                    probs.append('weight array of the result has the wrong shape')
                 if tuple(r.shape) != want_shape:
                     probs.append('shape {} != {}'.format(r.shape, want_shape))
                 if r.dtype != s.dtype or r.exponent != s.exponent or type(r) is not type(s):
                     probs.append('dtype/exponent/class changed')
-                if is_t and not (r.weighting == s.weighting):
+                if is_t and not arrw and not (r.weighting == s.weighting):
                     probs.append('weighting changed')
                 if is_d:
                     try:
@@ -1676,15 +1828,8 @@ def run_derived(ctx, spaces, elems):
                     except Exception as e:  # noqa
                         probs.append('partition comparison raised ' + type(e).__name__)
                 if probs:
-                    viol(ctx, 'derived-wrong {} op=byaxis'.format(cls(s)),
+                    viol(ctx, 'derived-wrong {} op=byaxis {}'.format(cls(s), what),
                          '{}.byaxis[{}]: {}'.format(sn, idx, '; '.join(probs)), rep)
-                wire = pidx_wire(idx, nd)
-                if is_t and impl != 'unmodelled' and wire:
-                    try:
-                        send(rep, 'derive op=byaxis S={} idx={}'.format(
-                            describe_space(s, reg), wire), impl)
-                    except ValueError:
-                        pass
     # ---- element indexing commutes with asarray
     done = set()
     for xn, xs, x in elems:
@@ -1782,7 +1927,12 @@ def run_derived(ctx, spaces, elems):
                     viol(ctx, 'index-wrong {} weighting={}'.format(
                         type(x).__name__, 'array' if arrw else 'other'),
                         '{}: x[{}]: {}'.format(xn, idx, '; '.join(probs)), rep)
-                impl = ('ok ' + space_desc(y.space, reg)) if hasattr(y, 'space') else None
+                impl = None
+                if hasattr(y, 'space') and ts_desc:
+                    try:
+                        impl = 'ok ' + space_desc(y.space, reg)
+                    except ValueError:
+                        impl = None
             if impl is not None and np.ndim(ref) > 0 and xs.dtype.kind in 'iufc' and ts_desc:
                 send(rep, 'derive op=indexspace S={} shape={}'.format(
                     ts_desc, L(str(k) for k in np.shape(ref))), impl)
@@ -1803,6 +1953,7 @@ EXTRA_TARGETS = ('OdlModel.Gen.DTypeTables',)
 
 
 def run_all(ctx):
+    check_dtype_tables(ctx)
     zoo = run_pairs(ctx)
     spaces, elems = run_membership(ctx, zoo)
     run_elements(ctx, spaces, elems)
